@@ -63,7 +63,9 @@ def lit(f, c, i):
 def c17a(ck, prog):
     R = "C17-a MUSTPASS framing"
     f = prog.coroutine_body(prog.one(r"^ohkami::response::Response::send$").key)
-    # the framing of one message may have been extracted into a helper: read send with such helpers spliced in
+    # the write + flush pair may be an awaited local helper, the framing of one message a synchronous one: read send with
+    # such helpers spliced in
+    f = prog.awaited_inlined(f, 1, containing=r"(AsyncWriteExt|WriteExt)::write_all$")
     f = prog.inlined(f, 2, r"^ohkami_lib::num::hexized_bytes$")
     nxt = [c for c in f.calls() if re.search(r"StreamExt::next$|stream::StreamExt::next$", c.decl or c.callee or "")]
     if len(nxt) != 1:
@@ -83,8 +85,21 @@ def c17a(ck, prog):
     THRU = paths.TRANSPARENT + r"|DerefMut>::deref_mut$|Deref>::deref$|::as_slice$|::as_mut_slice$"
     app = [c for c in f.calls_to(r"Vec::<T, A>::(append|extend_from_slice|extend)$") if len(c.args) > 1 and paths.root_call(f, c.args[1], through=THRU) is not None and paths.root_call(f, c.args[1], through=THRU).bb == msg.bb
            and not (paths.root_call(f, c.args[0], through=THRU) is not None and paths.root_call(f, c.args[0], through=THRU).bb == msg.bb)]
+    concat_elems = None
+    if not app:
+        # the chunk as one concatenation: [size, CRLF, message, CRLF].concat()
+        for c in f.calls():
+            if c.name not in ("concat", "join") or not c.args:
+                continue
+            arr = array_elements(f, c.args[0])
+            if arr is None:
+                continue
+            holds = [o for o in arr if o[0] in ("c", "m") and paths.root_call(f, o, through=THRU) is not None and paths.root_call(f, o, through=THRU).bb == msg.bb]
+            if len(holds) == 1 and c.name == "concat":
+                app = [c]
+                concat_elems = arr
     ok = len(app) == 1
-    ck.ob(R, "message-appended-once", ok, f.loc(hx.sp), "" if ok else "the message is put into the chunk %d times" % len(app), how="chunk.append(&mut message) / chunk.extend_from_slice(&message)")
+    ck.ob(R, "message-appended-once", ok, f.loc(hx.sp), "" if ok else "the message is put into the chunk %d times" % len(app), how="chunk.append(&mut message) / chunk.extend_from_slice(&message) / [.., &message, ..].concat()")
     if not ok:
         return
     ap = app[0]
@@ -148,8 +163,8 @@ def c17a(ck, prog):
           "" if ok else "messages are split into lines with %s on separator(s) %s: a line of an event stream also ends at %s, so a message containing it is decoded with different line boundaries than it was given"
           % (names, sorted(repr(x) for x in seps if x is not None), " and ".join(repr(x) for x in sorted({"\n", "\r"} - lone))), how="split at CRLF, LF and CR (%s)" % sorted(repr(x) for x in seps if x is not None))
     # (3) chunk framing: [hex digits] CRLF message CRLF
-    chunk = paths.root_call(f, ap.args[0], through=paths.TRANSPARENT + r"|DerefMut>::deref_mut$")
-    cw = writes_to(f, chunk.bb) if chunk is not None else []
+    chunk = paths.root_call(f, ap.args[0], through=paths.TRANSPARENT + r"|DerefMut>::deref_mut$") if concat_elems is None else ap
+    cw = writes_to(f, chunk.bb) if chunk is not None and concat_elems is None else []
 
     def classify(op, c=None):
         v = None
@@ -166,7 +181,14 @@ def c17a(ck, prog):
         return ("?", d[:50])
 
     shape = []
-    if chunk is not None and chunk.name in ("from", "to_vec", "to_owned", "from_iter", "into") and chunk.args:
+    if concat_elems is not None:
+        for o in concat_elems:
+            st_ = f.origin(o) if o[0] in ("c", "m") else ([("const", o[1])] if o[0] == "k" else None)
+            if st_ and st_[-1][0] == "const" and (st_[-1][1].get("s") is not None):
+                shape.append(("lit", st_[-1][1]["s"]))
+            else:
+                shape.append(classify(o))
+    elif chunk is not None and chunk.name in ("from", "to_vec", "to_owned", "from_iter", "into") and chunk.args:
         shape.append(classify(chunk.args[-1]))     # the chunk starts as a copy of something
     for c in cw:
         shape.append(classify(c.args[1], c) if len(c.args) > 1 else ("?", c.name))
@@ -217,6 +239,31 @@ def c17a(ck, prog):
     if ok:
         ok = any(f.dominates(term[0].bb, x.bb) and all(f.dominates(x.bb, r) for r in rets) for x in fl_s)
         ck.ob(R, "terminal-chunk-flushed", ok, f.loc(term[0].sp), "" if ok else "the terminal chunk is not flushed before the arm returns", how="flush() after the terminal chunk")
+
+
+def array_elements(f, op):
+    """operands of the array literal an operand (a reference to it, possibly unsized to a slice) denotes, or None"""
+    for _ in range(8):
+        if op[0] not in ("c", "m"):
+            return None
+        pl = op[1]
+        if pl[1] and not all(pr[0] == "d" for pr in pl[1]):
+            return None
+        sd = f.single_def(pl[0])
+        if sd is None or sd[2] != "assign":
+            return None
+        r = sd[3]["r"]
+        if r[0] == "agg" and r[1].get("k") == "array":
+            return list(r[2])
+        if r[0] == "use":
+            op = r[1]
+        elif r[0] == "cast" and isinstance(r[2], list):
+            op = r[2]
+        elif r[0] == "ref":
+            op = ["c", r[2]]
+        else:
+            return None
+    return None
 
 
 def arm_bb(f, prog, bb):
